@@ -53,12 +53,12 @@ def run(ctx, env):
         tpl = {"Template": "<%sTemplate as nom_derive::Parse" % IP, "OptionsTemplate": "<%sOptionsTemplate as nom_derive::Parse" % IP}
         for idv, want in ((2, {"Template"}), (3, {"OptionsTemplate"}), (255, set()), (256, set()), (1000, set()), (65535, set())):
             r = reach_assuming(an, fb, {canon(("arg", 3)): idv})
-            got = set()
-            for blk, t, c in fb.calls():
-                if blk in r and c is not None and c.local:
-                    for k, pre in tpl.items():
-                        if c.path.startswith(pre):
-                            got.add(k)
+            def tname(nd):
+                for k, pre in tpl.items():
+                    if nd["path"].startswith(pre):
+                        return k
+                return None
+            got = local_callees_reaching(prog, fb, r, tname)
             ctx.ob("R5.2", fb.path, "id=%d" % idv, got == want, "set id %d reaches template parsers %s, expected %s" % (idv, sorted(got), sorted(want)))
     # R5.3
     pfl = prog.body(IP + "TemplateField::parse_field_length")
@@ -147,39 +147,10 @@ def run(ctx, env):
                             if cb and any(cc is not None and cc.local and cc.path.startswith(IP + "FlowSet::parse") for _, _, cc in cb.calls()):
                                 ok = True
         ctx.ob("R5.5", ib.path, "sets-by-many0(complete(FlowSet::parse))", ok, "set repetition %s" % ("found" if ok else "not found"))
-    # R5.6
-    fp = prog.body(IP + "FieldParser::parse")
-    if ctx.anchor("R5.6", IP + "FieldParser::parse", fp):
-        tf = [(blk, t, c) for blk, t, c in fp.calls() if c is not None and c.nsyn == "std::iter::Iterator::try_fold"]
-        ok = False
-        why = "no try_fold over the template's fields"
-        if tf:
-            blk, t, c = tf[0]
-            ty = t["argtys"][0]
-            src_ok = "std::iter::Enumerate<std::slice::Iter<" in ty and not re.search(r"std::iter::(Rev|Skip|StepBy|Filter|Take|Zip|Chain)", ty)
-            clo = peel(an.op(fp, t["args"][2]), identity=(), casts=False)
-            ins_ok = cur_ok = False
-            if clo[0] == "closure":
-                cb = prog.body(clo[1])
-                ACC, ITEM = ("sym", "acc"), ("sym", "item")
-                res = an.interp.apply(clo, [ACC, ITEM])
-                okv = peel(an.interp._through("ok", res))
-                if okv[0] == "tuple":
-                    nc = peel(okv[1][0])
-                    cur_ok = nc[0] == "tfield" and nc[2] == 0 and nc[1][0] == "ok" and peel(nc[1][1])[0] == "call" and peel(nc[1][1])[2].path.endswith("parse_as_field_value") \
-                        and any(canon(peel(a)) == canon(("tfield", ACC, 0)) for a in peel(nc[1][1])[3])
-                if cb is not None:
-                    for b2, t2, c2 in cb.calls():
-                        if c2 is not None and c2.npath == "std::collections::BTreeMap::insert":
-                            key = peel(an.op(cb, t2["args"][1]))
-                            val = peel(an.op(cb, t2["args"][2]))
-                            kk = key[0] == "tfield" and key[2] == 0 and peel(key[1]) == ("arg", 3)
-                            vv = val[0] == "tuple" and len(val[1]) == 2 and peel(val[1][0])[0] == "field" and peel(val[1][0])[2] == "field_type" \
-                                and peel(val[1][1])[0] == "tfield" and peel(val[1][1])[2] == 1
-                            ins_ok = bool(kk and vv)
-            ok = bool(src_ok and ins_ok and cur_ok)
-            why = "try_fold over %s; insert(index,(field_type,value))=%s; cursor threaded=%s" % (ty[:80], ins_ok, cur_ok)
-        ctx.ob("R5.6", fp.path, "template-order-decode", ok, why)
+    # R5.6 (form-independent, see records.py)
+    from . import records
+    Rd = records.decode_order_rule(ctx, prog, an, "R5.6", IP + "Data::parse_be", "ipfix")
+    Ro = records.decode_order_rule(ctx, prog, an, "R5.6", IP + "OptionsData::parse_be", "ipfix-options")
     # R4.3 on IPFIX
     n = 0
     for adt in (IP + "Header", IP + "FlowSetHeader", IP + "Template", IP + "OptionsTemplate", IP + "TemplateField"):
@@ -190,4 +161,5 @@ def run(ctx, env):
     c04.datatype_scrutinee_rule(ctx, an, prog, "R4.7", "", "variable_versions::ipfix_lookup::IPFixField")
     ctx.floor("R4.7", "ipfix", "lookup arms", n7, 400)
     # R4.9
-    c04.decoder_iterates_records(ctx, prog, an, "R4.9", only="::ipfix::")
+    records.record_repetition_rule(ctx, prog, an, "R4.9", IP + "Data::parse_be", Rd)
+    records.record_repetition_rule(ctx, prog, an, "R4.9", IP + "OptionsData::parse_be", Ro)
